@@ -125,6 +125,9 @@ type Scenario struct {
 	// Match puts a data-reading matcher in front of the recording handler, so the first datagram is taken in
 	// by the matching phase's prefetch (one chunk of 2048 bytes) before the handler reads.
 	Match bool `json:"match,omitempty"`
+	// Zones: the clients are IPv6 link-local peers with the same address and port that differ only in the zone
+	// (interface) - still different clients
+	Zones bool `json:"zones,omitempty"`
 }
 
 var sizeChoices = []int{9, 10, 64, 1200, 2048, 2049, 8999, 9000}
@@ -150,6 +153,7 @@ func genScenario(seed int64, i int) *Scenario {
 		s.EndAfter, s.BufSize = 0, 9000
 	}
 	s.Match = r.Intn(3) == 0
+	s.Zones = r.Intn(5) == 0 && s.Handler != "proxy"
 	if r.Intn(3) == 0 {
 		s.Sizes[r.Intn(len(s.Sizes))] = boundarySizes[r.Intn(len(boundarySizes))]
 		if r.Intn(2) == 0 {
@@ -243,9 +247,14 @@ var debugScenario bool
 
 // clientAddr fabricates client addresses: the clients of one scenario share an IP address and differ in the
 // port (demultiplexing must use the whole address); across scenarios the IP changes.
-func clientAddr(k int) *net.UDPAddr {
+func clientAddr(k int) *net.UDPAddr { return clientAddrZ(k, false) }
+
+func clientAddrZ(k int, zones bool) *net.UDPAddr {
 	if k == 0 || k == 99 {
 		addrSeq++
+	}
+	if zones && k != 99 {
+		return &net.UDPAddr{IP: net.ParseIP(fmt.Sprintf("fe80::%x", addrSeq&0xffff)), Port: 2000, Zone: fmt.Sprintf("if%d", k)}
 	}
 	return vnet.UDPAddr(fmt.Sprintf("198.18.%d.%d", (addrSeq>>8)&0xff, addrSeq&0xff), 2000+k)
 }
@@ -265,7 +274,7 @@ func runScenario(c *fw.Ctx, s *Scenario) {
 	addrs := make([]*net.UDPAddr, s.Clients)
 	recs := make([]*hmods.ConnRec, s.Clients)
 	for k := range addrs {
-		addrs[k] = clientAddr(k)
+		addrs[k] = clientAddrZ(k, s.Zones)
 		recs[k] = hmods.Track("udp:" + addrs[k].String())
 	}
 	defer func() {
